@@ -33,7 +33,7 @@ Everything that is not Python's core is a PARAMETER of the interpreter (`Iface`)
                (floats, Decimals, `other`).
 Built into the semantics (Python itself): `is None`, `and` / `or` / `not` on values with a core truth value (None, bool,
 int, str, bytes, lists, tuples, classes, objects, date/time records), `==` / `!=` / `<` / `<=` / `>` / `>=` on ints,
-`==` / `!=` on str, `in` for `str in str` and `value in list-of-str`, `+` on str and int, `-` on int, `str * int`,
+`==` / `!=` on str, `in` for `str in str`, `value in list-of-str` and `class in tuple-of-classes`, `+` on str and int, `-` on int, `str * int`,
 `len` of str / list, `s[i]` / `l[i]` (negative indices), `s[:n]`, `l[-1] = v` on a list local, `str.split(sep)`,
 `sep.join(list)`, `str.find(t)`, tuple unpacking, `if`, `for` with `break`, `try / except <classes> / else`, `raise`,
 `return`; `setattr(self, name, v)` with a computed name appends to a WRITE LOG kept in the reserved slot `LOG` (the
@@ -201,8 +201,19 @@ def cmpInt : CmpOp → Int → Int → Option Bool
   | .ge, a, b => some (decide (a ≥ b))
   | _, _, _ => Option.none
 
+/-- `C in (C1, C2, …)` for class objects -/
+def clsIn (c : String) : List Val → Bool
+  | [] => false
+  | .cls d :: l => d == c || clsIn c l
+  | _ :: l => clsIn c l
+
 def pyCmp (I : Iface) (op : CmpOp) (a b : Val) : R Val :=
   match a, b with
+  | .cls c, .tuple l =>
+    match op with
+    | .isIn => .ok (.py (.bool (clsIn c l)))
+    | .notIn => .ok (.py (.bool (!clsIn c l)))
+    | _ => I.cmp op a b
   | .py (.int x), .py (.int y) =>
     match cmpInt op x y with
     | some r => .ok (.py (.bool r))
